@@ -134,8 +134,8 @@ func (c *ColMap[K, V]) DecodeColumn(r *Reader, rows int) error {
 		return errors.Wrap(err, "offsets")
 	}
 
-	count := int(c.Offsets[rows-1])
-	if err := checkRows(count); err != nil {
+	count, err := checkOffsets(c.Offsets)
+	if err != nil {
 		return errors.Wrap(err, "keys count")
 	}
 	if err := c.Keys.DecodeColumn(r, count); err != nil {
